@@ -45,7 +45,7 @@ pub struct ClientResult {
 /// closed-loop client: one outstanding request at a time on its own socket
 fn client_loop(id: usize, port: u16, pk: Vec<u8>, srv: Vec<u8>, seed: u64, nreq: usize, stop: Arc<AtomicBool>, reply_timeout: Duration, think_extra_us: u64) -> ClientResult {
     let mut rng = Rng::new(seed);
-    let sock = UdpSocket::bind("127.0.0.1:0").unwrap();
+    let mut sock = UdpSocket::bind("127.0.0.1:0").unwrap();
     let addr: SocketAddr = format!("127.0.0.1:{}", port).parse().unwrap();
     sock.set_read_timeout(Some(reply_timeout)).unwrap();
     let mut events = Vec::with_capacity(nreq.min(100_000));
@@ -78,6 +78,10 @@ fn client_loop(id: usize, port: u16, pk: Vec<u8>, srv: Vec<u8>, seed: u64, nreq:
                 if misses >= 3 {
                     break;
                 }
+                // the operation stays open: its reply may still arrive. Retire this socket so that a
+                // late reply cannot be mistaken for the answer to the next request.
+                sock = UdpSocket::bind("127.0.0.1:0").unwrap();
+                sock.set_read_timeout(Some(reply_timeout)).unwrap();
                 continue;
             }
         }
